@@ -5,19 +5,44 @@ PROP = dict(
                  env=dict(quick=dict(VERIF_CASES=24), thorough=dict(VERIF_CASES=120)),
                  timeout=dict(quick=600, thorough=3000)),
         ],
-        rule="the same seeded history (fixture: lends, borrows, 2 vaults, liquidity pair + pool; then 24 (thorough 120) blocks of 6-15 "
-             "transactions: limit orders at 7 prices with repeats so that several orders share a price, pool deposits, vault create / deposit / "
-             "draw, a price drop at 2/3 of the history that triggers V2 liquidations, all wired block hooks at every block) replayed in 2 fresh "
-             "in-process applications and 3 fresh processes (GOMAXPROCS 1, 2, 8); case = block; observation per block = SHA-256 of each of the 15 "
-             "DeFi module stores, of the balances of all touched accounts + supplies, and each transaction's result class; non-trivial = at "
-             "least 2 replays and successful transactions; a difference between any two replays is a predicate failure naming block and store",
+        rule="the same seeded history (fixture at Friday 2024-03-08 12:00 UTC: lends, borrows, 2 vaults, liquidity pair + pool, an external "
+             "vault-reward program and an external locker-reward program (two lockers) each paying once a day; then 24 (thorough 120) blocks of 6-15 transactions: limit orders at 7 prices with repeats "
+             "so that several orders share a price, pool deposits, vault create / deposit / draw, a price drop at 2/3 of the history that triggers "
+             "V2 liquidations, all wired block hooks at every block; two blocks out of three 6 s apart, the third 9 h 17 min later, so that 24 "
+             "blocks span three days and cross the US daylight-saving switch of 2024-03-10 and several midnights of every zone used) replayed in "
+             "2 fresh in-process applications and 4 fresh processes: GOMAXPROCS 1 / TZ=UTC, GOMAXPROCS 2 / TZ=America/New_York, GOMAXPROCS 8 / "
+             "TZ=Asia/Tokyo (time/tzdata is embedded in the harness), and GOMAXPROCS 4 with DISCARDED DRY RUNS before every transaction: the "
+             "same message on a cache context that is never written (signer funded there), then the same message on a second dropped branch "
+             "on which liquidity generic params, all oracle prices, the extended-pair vault parameters, both auction parameter sets, the "
+             "liquidation whitelistings, the lend rate parameters, the reward epoch and (every 4th) the kill switch were changed and a block 49 h "
+             "in the future ran (all hooks); case = block; observation per block = SHA-256 of each of the 15 DeFi module stores, of the balances "
+             "of all touched accounts + supplies, and each transaction's result class; non-trivial = at least 2 replays, successful "
+             "transactions, replays in at least 3 different zones one of which switches its offset inside the history (the runner reads the "
+             "offsets each process reports), and a dry-run replay; a difference between any two replays is a predicate failure naming block, "
+             "store and replay",
         modelled=["float results are assumed reproducible on one architecture (amd64); cross-architecture determinism of math.Pow is out of reach",
                   "bank is compared through balances of the accounts the workload touches and total supplies (the genesis validator set of "
                   "app.Setup is random per application, so the raw bank store is not comparable)",
-                  "the order used by sort.Strings / sort.Slice is any total antisymmetric transitive order (c16_site_1, c16_site_3)"],
-        assumptions=["map iteration is the only language-level source of nondeterminism besides goroutines, select, clocks, randomness and "
-                     "environment reads, whose absence outside registered simulation helpers is the table theorem c16_no_ambient",
-                     "packages under /simulation, /client/, /testutil, module_simulation.go and app/test_*.go are not scanned for ambient sources"],
+                  "the order used by sort.Strings / sort.Slice is any total antisymmetric transitive order (c16_site_1, c16_site_3)",
+                  "process-state scan: objects of other modules (SDK / IBC / wasmd keepers, BaseApp, module manager, params subspace, store keys, "
+                  "codec: the closed list procstate_ext_ok) are not looked into; values behind interface-typed fields and variables captured by "
+                  "function literals are not followed; package-level slices / pointers handed to functions are not followed (only direct "
+                  "writes, and every alias of a package-level map / channel / sync value)",
+                  "local-time scan: a time.Time that arrives from outside a function (block header time, decoded store values, parameters) is "
+                  "taken to be in UTC - which holds by induction because every zone-of-the-process Time that leaves a function is itself a row; "
+                  "Truncate / Round work on the absolute instant and are followed, not failed"],
+        assumptions=["map iteration is the only language-level source of nondeterminism besides goroutines, select, clocks, randomness, "
+                     "environment reads, memory of the process outside the store and the zone of the process, whose absence outside registered "
+                     "sites is the table theorem c16_no_ambient (with c16_no_process_state and c16_no_local_time)",
+                     "packages under /simulation, /client/, /testutil, module_simulation.go and app/test_*.go are not scanned for ambient sources",
+                     "registered harmless sites of the unchanged tree (each read; justification beside the registry in Model/MapSites.v): "
+                     "(1) 14 x types.RegisterInterfaces pass &_Msg_serviceDesc (generated gRPC descriptor) to msgservice.RegisterMsgServiceDesc, "
+                     "which only reads it; (2) 4 read-only methods of the external named map module.BasicManager on the package variable "
+                     "app.ModuleBasics (RegisterGRPCGatewayRoutes, RegisterLegacyAminoCodec, RegisterInterfaces, DefaultGenesis); (3) the "
+                     "context-taking types x/liquidity/types.BulkSendCoinsOperation (per-call batch of bank sends, filled and run inside one keeper "
+                     "call) and x/asset/keeper.Migrator never leave the call stack (checked by the translator: no field, package variable, "
+                     "interface conversion, external call, literal, closure or channel holds one); (4) types.ParseTime returns time.Parse's "
+                     "result without .UTC() but nothing in non-test code refers to it (caller list checked empty / wiring-only)"],
     )
 
 MANIFEST = dict(
@@ -26,10 +51,17 @@ MANIFEST = dict(
                "permutations: the pro-rata fill loop of amm/match.go (orders filled independently, quote differences added, panics included), the "
                "Dec sum of pool liquidities (with its 315-bit overflow panic), and the two collect-then-sort sites; c16_sites_covered fails on a new "
                "or edited map loop and on reflect / maps.Keys enumerations; c16_no_ambient establishes from the regenerated reference graph that no "
-               "goroutine / select exists and randomness / wall clock occur only in simulation helpers nothing else refers to. Tied dynamically by "
-               "replaying one seeded multi-module history in 2 in-process applications and 3 processes and comparing per-block store digests.",
+               "goroutine / select exists and randomness / wall clock / environment occur only in simulation helpers nothing else refers to; "
+               "c16_no_process_state: no write to memory of the process (fields of keeper / module / app structs and what they hold, package-level "
+               "variables, in-place Dec / big.Int operations, sync / atomic values) outside init, constructors and registered read-only sites, no "
+               "unlisted external type held, no alias the scan cannot follow; c16_no_local_time: no Time in the zone of the process used in a "
+               "calendar / formatting operation or let out of a function before .UTC(). Tied dynamically by replaying one seeded multi-module "
+               "history in 2 in-process applications and 4 processes (different GOMAXPROCS, TZ=UTC / America/New_York / Asia/Tokyo across a "
+               "daylight-saving switch, and one with discarded dry runs before every transaction) and comparing per-block store digests.",
     design_ref="DESIGN.md section 4 C16",
     level_note="Determinism of the Gallina model itself would be vacuous; the theorems are about the Go-level nondeterminism sources. Float "
-               "reproducibility across architectures is assumed. No axioms.",
-    technique="Coq proof (permutation invariance per map-range site, generic fold lemma) + translated closed-world tables + multi-process replay",
+               "reproducibility across architectures is assumed. The process-state and local-time theorems are closed-world table facts over "
+               "the regenerated AmbientTable (finite, vm_compute + forallb_forall); an unrecognised shape is a failing row. No axioms.",
+    technique="Coq proof (permutation invariance per map-range site, generic fold lemma) + translated closed-world tables (ambient sources, "
+              "process-local mutable state, local time zone) + multi-process / multi-zone / dry-run replay",
 )
